@@ -336,7 +336,7 @@ def rand_file(rng, version, size="small"):
     new_year = rng.random() < 0.12
     if new_year:
         # a session running over New Year: the epoch records are in another calendar year than TIME OF FIRST OBS
-        t0 = [rng.choice([2005, 2017, 2017, 2022, 2099]), 12, 31, 23, 59, rng.choice([0, 15, 30, 45, 59])]
+        t0 = [rng.choice([1999, 2005, 2017, 2017, 2022]), 12, 31, 23, 59, rng.choice([0, 15, 30, 45, 59])]
     sub = rng.random() < 0.35
     step7 = rng.choice([1, 5, 10, 15, 30]) * 10 ** 7 if not sub else rng.choice([10 ** 6, 5 * 10 ** 6, 2 * 10 ** 6, 2500000, 1234567])
     nep = rng.choice([1, 2, 3, 4, 6]) if not big else rng.choice([2, 3, 5, 8])
